@@ -20,6 +20,9 @@ def monitor(case, il, sl):
     if v:
         return v
     rr = refrun.RefRun(tr)
+    v = monitors.close_result(tr, rr, "c08-close-result")
+    if v:
+        return v
     for f in (monitors.close_handshake, monitors.replies, monitors.consumers):
         v = f(tr, rr, "c08-close")
         if v:
